@@ -6,14 +6,18 @@ use std::marker::PhantomData;
 use dukenest::nest::{Nest, NestType, Nests};
 use duke::tree::method::MethodNameAndDesc;
 
-/// the class universe: the first `N_PRESENT` are in the jar, the others are not
-pub const CLS: [&str; 6] = ["p/A", "p/B", "p/C", "p/D", "p/E", "p/F"];
-pub const SIMPLE: [&str; 6] = ["A", "B", "C", "D", "E", "F"];
+/// the class universe: the first `N_PRESENT` are in the jar, the others are not. Two of the names have
+/// the shapes the statement mentions for names that are already processed: calamus-style `C_12` and
+/// the pre-nested `A__D` (whose prefix is another class of the universe)
+pub const CLS: [&str; 6] = ["p/A", "p/B", "p/C_12", "p/A__D", "p/E", "p/F"];
+pub const SIMPLE: [&str; 6] = ["A", "B", "C_12", "A__D", "E", "F"];
+/// one letter per class, for names derived in the checker (target names, field names)
+pub const LETTER: [&str; 6] = ["A", "B", "C", "D", "E", "F"];
 pub const N_PRESENT: usize = 4;
 /// inner-class access flags of the nest of each class (all inside the InnerClasses flag mask)
 pub const FLAGS: [u16; 6] = [0x0009, 0x0008, 0x0002, 0x4019, 0x0000, 0x0608];
 /// a method every jar class declares, and one (same name, other descriptor) that none declares
-pub const M_PRESENT: (&str, &str) = ("m", "(Lp/B;[Lp/E;)Lp/C;");
+pub const M_PRESENT: (&str, &str) = ("m", "(Lp/B;[Lp/E;)Lp/C_12;");
 pub const M_ABSENT: (&str, &str) = ("m", "(Lp/B;)V");
 
 #[derive(Clone, Copy, Debug, PartialEq, Eq, Hash, PartialOrd, Ord)]
